@@ -230,7 +230,7 @@ def gen_dense(rng):
         members.append({'du': du, 'sfx': sfx})
         texts.append(_dense_text(ast, base_unit, du, sfx, sg.Spelling(rng)))
     return {'kind': 'dense', 'mode': mode, 'vars': vars_, 'ast': ast, 'signals': signals, 'base_unit': base_unit, 'members': members,
-            'texts': texts, 'nbatches': rng.randint(1, 3)}
+            'texts': texts, 'nbatches': rng.randint(1, 3), 'prior_member': rng.randrange(4) if rng.random() < 0.3 else None}
 
 
 def _dense_text(ast, base_unit, du, sfx, sp):
@@ -388,6 +388,13 @@ def run_dense(sc):
         try:
             if mode == 'offline':
                 desc['cls'] = 'ct_off'
+                if sc.get('prior_member') is not None and len(fns) == sc['prior_member'] % len(sc['members']) and len(sc['members']) > 1:
+                    # this member's object was used under another member's default unit before
+                    other = sc['members'][(len(fns) + 1) % len(sc['members'])]
+                    oscale = Fraction(units.U[sc['base_unit']], units.U[other['du'] or 's'])
+                    desc['prior'] = {'unit': other['du'], 'signals': dict((v, [[float(Fraction(t) * oscale), x] for t, x in signals[v]]) for v in sc['vars']),
+                                     'order': sc['vars']}
+                    r.faults['dense_object_reconfigured_after_use'] += 1
                 out = M.ct_evaluate(M.build(desc), sig, sc['vars'])
             else:
                 desc['cls'] = 'ct_on'
